@@ -762,7 +762,12 @@ pub fn gen_string(rng: &mut Rng) -> String {
             5 | 6 | 7 | 8 if many_lines => '\n',
             1 => ' ',
             2 => char::from_u32(rng.u32r(0xA0, 0xFF)).unwrap(),
-            3 => *rng.pick(&['\u{0}', '\t', '\u{7f}', '\u{fffd}', '\u{1F600}', 'ｱ', 'Ω', 'Ж']),
+            3 => *rng.pick(&['\u{0}', '\t', '\u{7f}', '\u{fffd}', '\u{1F600}', 'ｱ', 'Ω', 'Ж', '\r']),
+            // a line whose content ends with a carriage return, followed by a CR LF line ending
+            9 if rng.chance(1, 6) => {
+                s.push_str("\r\r");
+                '\n'
+            }
             4 if rng.chance(1, 2) => {
                 s.push('\r');
                 '\n'
@@ -770,6 +775,12 @@ pub fn gen_string(rng: &mut Rng) -> String {
             _ => char::from_u32(rng.u32r(0x21, 0x7E)).unwrap(),
         };
         s.push(c);
+    }
+    // a carriage return is either line content (an unmapped character) or the first half of a CR LF
+    // line ending; what a CR at the very end of the text means is not fixed by any statement, so
+    // generated strings never end with one
+    if s.ends_with('\r') {
+        s.push('\n');
     }
     s
 }
